@@ -138,7 +138,22 @@ def gen_case(seed, i):
         k = rng.randrange(len(steps) - 1)
         steps[k]["kill"] = {"kind": rng.choice(["write", "pwrite", "fsync", "openw"]), "ord": rng.choice([0, 1, 2, 3, 5]),
                             "act": rng.choice(["crashb", "crasha"])}
-    return {"i": i, "world": w.to_json(), "steps": steps, "twins": twins, "lflags": lflags}
+    scripted = False
+    fam0 = [p_ for p_ in files if "/f0k" in p_]
+    if i % 8 == 5 and len(fam0) >= 2:
+        # scripted history (no draw): v1@t1 -> run -> v2@t2 -> run -> v3@t1 -> run -> run, one configuration throughout, no
+        # interrupted run, nothing else edited: the file goes back to a modification time it carried before, with a THIRD
+        # content of the same length (`cp -p` over it from a tree with uniform timestamps).  Every content change changes
+        # the mtime and every state is seen by a run of the same cache tree; v2 and v3 differ from v1 in the same byte,
+        # so v3 is consulted in no stage whose entry the v2 run did not rewrite.
+        dt_ = steps[0]["dt"] if steps else 10**6
+        uid_ = "c12-%d-s" % i
+        steps = [{"edits": [], "cfg": dict(base), "dt": dt_},
+                 {"edits": [{"kind": "modify", "p": fam0[0], "uid": uid_ + "1"}], "cfg": dict(base), "dt": dt_},
+                 {"edits": [{"kind": "modify", "p": fam0[0], "uid": uid_ + "2", "back": True}], "cfg": dict(base), "dt": dt_},
+                 {"edits": [], "cfg": dict(base), "dt": dt_}]
+        scripted = True
+    return {"i": i, "world": w.to_json(), "steps": steps, "twins": twins, "lflags": lflags, "scripted": scripted}
 
 
 def gen_cases(tier, seed):
@@ -147,6 +162,8 @@ def gen_cases(tier, seed):
 
 
 def shrink(case):
+    if case.get("scripted"):
+        return      # removing a step or an edit of the scripted history would leave the premise of the property
     st = case["steps"]
     if len(st) > 1:
         for i in range(len(st)):
@@ -160,6 +177,9 @@ def shrink(case):
             c = dict(case); c["steps"] = [dict(x) for x in st]; c["steps"][i].pop("kill"); yield c
         if s["cfg"].get("transform"):
             c = dict(case); c["steps"] = [dict(x) for x in st]; c["steps"][i]["cfg"] = dict(s["cfg"], transform=None); yield c
+
+
+_MTIME_BEFORE_MODIFY = {}      # (world dir, inode) -> mtime the file carried before its first "modify" of this history
 
 
 def apply_edit(rd, e, now, labels, world_content):
@@ -179,12 +199,24 @@ def apply_edit(rd, e, now, labels, world_content):
             open(p, "wb").write(data)
             os.utime(p, ns=(now, now))
         elif k == "modify":
-            n = os.path.getsize(p)
+            st0 = os.stat(p)
+            n = st0.st_size
             data = bytearray(open(p, "rb").read())
-            if n:
-                data[n // 2] ^= 0x5A
+            key = (W, st0.st_ino)
+            mt = now
+            if e.get("back") and key in _MTIME_BEFORE_MODIFY:
+                x = 1 + sum(e["uid"].encode()) % 254
+                if n:
+                    data[n // 2] ^= x + 1 if x == 0x5A else x       # not the toggle below: a third content
+                mt = _MTIME_BEFORE_MODIFY[key]
+                if mt == st0.st_mtime_ns:
+                    mt = now            # the premise: every content change changes the modification time
+            else:
+                _MTIME_BEFORE_MODIFY.setdefault(key, st0.st_mtime_ns)
+                if n:
+                    data[n // 2] ^= 0x5A
             open(p, "wb").write(bytes(data))
-            os.utime(p, ns=(now, now))
+            os.utime(p, ns=(mt, mt))
         elif k == "append":
             open(p, "ab").write(b"+" + e["uid"].encode())
             os.utime(p, ns=(now, now))
@@ -232,6 +264,7 @@ def body(rep):
 
 def run_case(case):
     viol = []
+    _MTIME_BEFORE_MODIFY.clear()
     with core.RunDir("c12") as rd:
         World.from_json(case["world"]).materialise(rd.world)
         world_content = {e["p"]: content_bytes(e["c"]) for e in case["world"]["entries"] if e["t"] == "f"}
